@@ -36,10 +36,17 @@ class MinMaxValue(GenericValue):
         return self._file._value_to_code(self._new_value)
 
     def _get_changes(self) -> Iterator[Change]:
+        def cmp(a, b):
+            # values which can not be compared (5 <= "a") do not fulfil the condition
+            try:
+                return self.cmp(a, b)
+            except TypeError:
+                return False
+
         new_token = value_to_token(self._new_value)
-        if not self.cmp(self._old_value, self._new_value):
+        if not cmp(self._old_value, self._new_value):
             flag = "fix"
-        elif not self.cmp(self._new_value, self._old_value):
+        elif not cmp(self._new_value, self._old_value):
             flag = "trim"
         elif (
             self._ast_node is not None
